@@ -240,7 +240,9 @@ def part(rep, pid, tier='quick'):
     from vlib import callhelpers
     with callhelpers.table_dir():
         callhelpers.custom_athlon_table()
-        return _part(rep, pid, tier)
+        t = _part(rep, pid, tier)
+    saturation(rep, pid, tier)
+    return t
 
 
 def _part(rep, pid, tier='quick'):
@@ -269,11 +271,12 @@ def interpreter_modes(rep, pid):
     docstrings being present"""
     import subprocess, sys
     res = {}
-    for flag in ('', '-O', '-OO', 'debug-logging'):
+    MODES = ('', '-O', '-OO', 'debug-logging', 'decimal-ROUND_DOWN', 'decimal-ROUND_CEILING', 'line-tracer')
+    for flag in MODES:
         cmd = [sys.executable] + ([flag] if flag.startswith('-') else []) + ['-m', 'vlib.interprun', pid]
         env = dict(os.environ, PYTHONHASHSEED='0')
         env.pop('VERIF_AMBIENT', None)
-        if flag == 'debug-logging':          # not an interpreter flag: the host application has switched DEBUG logging on before importing anything
+        if not flag.startswith('-') and flag:          # not an interpreter flag: the host application has switched DEBUG logging on before importing anything
             env['VERIF_AMBIENT'] = flag
         p = subprocess.run(cmd, cwd=common.VERIF, env=env, capture_output=True, text=True)
         line = [l for l in p.stdout.splitlines() if l.startswith('INTERP-RESULT ')]
@@ -284,7 +287,7 @@ def interpreter_modes(rep, pid):
         raise common.HarnessError('interpreter flags did not take effect')
     acc = Acc()
     base = res['']['answers']
-    for flag in ('-O', '-OO', 'debug-logging'):
+    for flag in MODES[1:]:
         other = res[flag]['answers']
         if len(other) != len(base):
             raise common.HarnessError('interpreter-mode pass: call lists differ')
@@ -297,4 +300,160 @@ def interpreter_modes(rep, pid):
                 acc.nontrivial += 1
     if base:
         acc.samples.append(dict(interpreter_modes=['default', '-O', '-OO'], call=base[0][0], answer=base[0][1]))
-    merge(rep, [acc.pack()], part='interpreter modes: every cross-API call of this check made first under python, python -O, python -OO, and with DEBUG logging switched on by the host (%d calls)' % len(base))
+    merge(rep, [acc.pack()], part='interpreter modes: every cross-API call of this check made first under python, python -O, python -OO, with DEBUG logging switched on by the host, and with the decimal context of the host rounding down / towards +inf, and under a line tracer that reads the local variables of every frame (%d calls)' % len(base))
+
+
+# ------------------------------------------------------------------------------------------------
+# saturation: a bounded store of recent answers goes wrong only once it is full - the same call again after 65 ... 2049 other distinct calls of the function
+
+def _fillers(path, probe):
+    """up to ~2100 distinct calls of the same function, none equal to the probe (deterministic order)"""
+    evs, first_age = _G_SAT['events']
+    out = []
+    if path.startswith('athlib.wma_'):
+        for age in range(35, 100):
+            for e in evs[:40]:
+                for g in 'mf':
+                    if path.endswith('world_best'):
+                        out.append((path, (g, e), {}))
+                    elif path.endswith('age_grade'):
+                        out.append((path, (g, age, e, mark_for(e)[1]), {}))
+                    elif 'athlon' in path:
+                        out.append((path, (g.upper(), age, e), {}))
+                    else:
+                        out.append((path, (g, age, e), {}))
+            if len(out) > 4400:
+                break
+    else:
+        k = 0
+        while len(out) < 2200 and k < 60:
+            for e in evs:
+                for c in group(e, first_age):
+                    if c[0] == path and not c[4]:
+                        args = list(c[1])
+                        # vary the first plain number among the arguments (a mark, a target, an age) so that every filler is a distinct call
+                        for i, a in enumerate(args):
+                            if isinstance(a, (int, float)) and not isinstance(a, bool):
+                                args[i] = a + k if isinstance(a, int) else round(a * (1 + k / 100.0), 2)
+                                break
+                            if isinstance(a, str) and a.replace('.', '', 1).isdigit() and i == len(args) - 1:
+                                args[i] = '%.2f' % (float(a) * (1 + k / 100.0))
+                                break
+                        else:
+                            if k:
+                                continue
+                        out.append((path, tuple(args), c[2]))
+            k += 1
+    seen, res = {(probe[0], probe[1], tuple(probe[2].items()))}, []
+    for c in out:
+        key = (c[0], c[1], tuple(c[2].items()))
+        if key not in seen:
+            seen.add(key)
+            res.append(c)
+    return res
+
+
+_G_SAT = {}
+CHECKPOINTS = (65, 129, 257, 513, 1025, 2049)      # quick tier: up to 1025
+
+
+def _sat_work(chunk):
+    probes, = chunk
+    G = _setup()
+    st, pristine = G['st'], G['pristine']
+    out = orderpass.outcome
+    acc = Acc()
+    for p in probes:
+        st.restore(pristine)
+        want = out(p)
+        fill = _fillers(p[0], p)
+        st.restore(pristine)
+        first = out(p)
+        n = 0
+        ok = first == want
+        for cp in CHECKPOINTS:
+            if len(fill) < cp or (cp > 1025 and not _G_SAT.get('deep')):
+                break
+            while n < cp:
+                out(fill[n])
+                n += 1
+            acc.n += 1
+            got = out(p)
+            if got != want:
+                ok = False
+                acc.bad('answer-depends-on-earlier-calls:%s:after-%d-other-calls' % (p[0].split(':')[-1].split('.')[-1], cp), dict(history=[list(map(repr, p))], fillers=cp),
+                        'the call gives %r after %d other distinct calls of the same function; made first it gives %r' % (got, cp, want))
+                break
+            # the first filler again too (the oldest entry of a store that has just been full)
+            st2 = out(fill[0])
+        if ok:
+            acc.nontrivial += 1
+        acc.add('filler_calls', n)
+    st.restore(pristine)
+    if probes and not acc.samples:
+        acc.samples.append(dict(saturation_probe=repr(probes[0]), checkpoints=list(CHECKPOINTS)))
+    return acc.pack()
+
+
+def saturation(rep, pid, tier='quick'):
+    evs, first_age = events()
+    _G_SAT['events'] = (evs, first_age)
+    _G_SAT['deep'] = tier == 'thorough'
+    targets = TARGETS[pid]
+    probes = []
+    for e in ('100', 'HJ', '5K', 'SP', evs[3]):
+        for c in group(e, first_age):
+            if c[0] in targets and not c[4]:
+                probes.append((c[0], c[1], c[2]))
+    # two probes per function
+    per = {}
+    sel = []
+    for p in probes:
+        if per.get(p[0], 0) < (2 if tier == 'thorough' else 1):
+            per[p[0]] = per.get(p[0], 0) + 1
+            sel.append(p)
+    _G.clear()
+    _G['groups'] = [[(p[0], p[1], p[2], None, False) for p in sel]]
+    _G['targets'] = targets
+    from vlib import callhelpers
+    with callhelpers.table_dir():
+        n = max(1, min(len(sel), common.NPROC))
+        return merge(rep, pmap(_sat_work, [(sel[i::n],) for i in range(n)]),
+                     part='saturation: %d probe calls, each asked again after %s other distinct calls of the same function' % (len(sel), '/'.join(map(str, CHECKPOINTS))))
+
+
+# ------------------------------------------------------------------------------------------------
+# ambient numeric context on a grid: the host application has changed the decimal context of the calling thread (a directed rounding mode for its own
+# sums, three significant digits for display); a function that does its own arithmetic inside a local context that pins only part of it gives other answers
+
+def ambient_grid(rep, calls, label):
+    import decimal
+    common.bind_repo()
+    out = orderpass.outcome
+    calls = [(c[0], tuple(c[1]), dict(c[2]) if len(c) > 2 else {}) for c in calls]
+    for c in calls[:1]:
+        orderpass.resolve(c[0])
+    base = [out(c) for c in calls]
+    acc = Acc()
+    ctx = decimal.getcontext()
+    saved = (ctx.rounding, ctx.prec)
+    try:
+        for mode in ('ROUND_DOWN', 'ROUND_CEILING', 'ROUND_UP', 'ROUND_FLOOR', 'ROUND_HALF_UP', 'prec=3'):
+            ctx.rounding, ctx.prec = saved
+            if mode == 'prec=3':
+                ctx.prec = 3
+            else:
+                ctx.rounding = getattr(decimal, mode)
+            for c, b in zip(calls, base):
+                acc.n += 1
+                got = out(c)
+                if got != b:
+                    acc.bad('answer-depends-on-ambient-decimal-context:%s:%s' % (mode, c[0].split(':')[-1].split('.')[-1]), dict(call=repr(c), interpreter='decimal-' + mode if mode != 'prec=3' else mode),
+                            'with the decimal context of the calling thread set to %s the call gives %r, under the default context %r' % (mode, got, b))
+                else:
+                    acc.nontrivial += 1
+    finally:
+        ctx.rounding, ctx.prec = saved
+    if calls:
+        acc.samples.append(dict(ambient_decimal_context=['ROUND_DOWN', 'ROUND_CEILING', 'ROUND_UP', 'ROUND_FLOOR', 'ROUND_HALF_UP', 'prec=3'], call=repr(calls[0]), answer=list(base[0])))
+    return merge(rep, [acc.pack()], part='%s: %d calls under six ambient decimal contexts (directed rounding modes, three significant digits), each answer vs the default context' % (label, len(calls)))
